@@ -481,12 +481,37 @@ fn family_paging(r: &mut StdRng, scn: usize, n_req: usize, out: &mut Vec<Value>)
                       "err": res.err().unwrap_or_default(), "req": other.to_string()}));
   }
   if !saved.is_empty() {
+    // a writer handle that stays open across the other handle's commit (its idea of the current
+    // generation is then behind)
+    let mut w_old = b.idx.writer()?;
     {
       let mut w = b.idx.writer()?;
       w.add_document(&doc_from_json(json!({"_id": "zz-new", "ver": 9999, "body": "rust rust go"})))?;
       w.commit()?;
     }
     reader = b.idx.reader()?;
+    // cursors minted now, then a commit through the old handle: they are stale as well
+    let mut minted: Vec<(Value, String)> = Vec::new();
+    for (req, _) in saved.iter().take(4) {
+      let mut p1 = req.clone();
+      p1["limit"] = json!(1);
+      if let Ok(res) = run_search(&reader, &p1) {
+        if let Some(c) = res.next_cursor {
+          minted.push((p1, c));
+        }
+      }
+    }
+    w_old.add_document(&doc_from_json(json!({"_id": "zz-old", "ver": 9998, "body": "rust go go"})))?;
+    w_old.commit()?;
+    drop(w_old);
+    let reader2 = b.idx.reader()?;
+    for (req, cur) in minted.iter() {
+      let mut again = req.clone();
+      again["cursor"] = json!(cur);
+      let res = run_search(&reader2, &again);
+      stale.push(json!({"ev": "search", "check": "stale", "prop": "C11", "kind": "after_commit", "ok": res.is_ok(),
+                        "err": res.err().unwrap_or_default(), "req": again.to_string()}));
+    }
     for (req, cur) in saved.iter() {
       let mut again = req.clone();
       again["cursor"] = json!(cur);
@@ -557,10 +582,19 @@ fn family_relate(r: &mut StdRng, scn: usize, n_req: usize, out: &mut Vec<Value>)
     if spiky && i % 2 == 0 {
       let term = |w: &str| Q::Term { field: "body".into(), value: w.into(), boost: None };
       let should = |qs: Vec<Q>| Q::Bool { must: vec![], should: qs, must_not: vec![], filter: vec![], msm: None, boost: None };
-      q = match r.gen_range(0..4) {
+      q = match r.gen_range(0..6) {
         0 => term("zig"),
         1 => should(vec![term("zig"), term("go")]),
         2 => should(vec![term("go"), term("zig"), term(WORDS[r.gen_range(0..WORDS.len())])]),
+        // several words under ONE scoring leaf (their block bounds add up)
+        3 => Q::QueryString {
+          terms: vec![QsTerm { field: None, word: "zig".into() }, QsTerm { field: None, word: "go".into() }],
+          nots: vec![], phrases: vec![], fields: Some(vec!["body".to_string()]), boost: None,
+        },
+        4 => Q::MultiMatch {
+          words: vec!["zig".into(), "go".into()], nots: vec![], fields: vec![("body".to_string(), None)],
+          mtype: *pick(r, &["best_fields", "most_fields"]), and: None, msm: None, tie: None, boost: None,
+        },
         _ => should(vec![term("zig"), q]),
       };
     }
